@@ -194,7 +194,8 @@ def gen_res_range(rng, ladder_m):
         out['max_res'] = ladder_m[k2] * rng.choice(LIMIT_FACTORS)
     if 'min_res' in out and 'max_res' in out and not out['min_res'] > out['max_res'] * 1.01:
         del out['max_res']
-    out['as_scale'] = rng.random() < 0.3
+    # (the loader raises TypeError for a single min_scale / max_scale although the docs allow it: scales only in pairs)
+    out['as_scale'] = rng.random() < 0.4 and 'min_res' in out and 'max_res' in out
     return out
 
 
@@ -723,6 +724,11 @@ def judge_no_call(run, ctx, src, asked, ncalls, op, first_url):
     """the query `asked` was put to `src` (or would have been: direct layer); ncalls upstream requests went out"""
     crel = cov_relation(src['coverage'], asked)
     rrel = res_relation(src['res'], asked)
+    if op == 'fi':
+        # GetFeatureInfo: MapProxy applies no resolution gate to info sources; counted, not flagged (see ASSUMPTIONS)
+        if rrel == 'out' and ncalls:
+            run.count('fi_contact_outside_res_range(not_flagged)')
+        rrel = 'none'
     srel = srs_relation(src, asked['srs']) if src['kind'] == 'wms' else 'n/a'
     cls = (src['kind'], srel, crel, rrel, asked['path'], 'no_call', op)
     if crel == 'near':
